@@ -46,7 +46,9 @@ func init() {
 		k byte
 	}{{0, 0}, {1, 1}, {5, 3}, {0x155, 9}, {-1, 32}, {0x12345678, 32},
 		// values with bits above the k that are appended: only the low k bits count
-		{0x1F, 3}, {-1, 5}, {0x2A5, 4}} {
+		{0x1F, 3}, {-1, 5}, {0x2A5, 4},
+		// groups wider than a word: int has 64 bits, and "the low k bits of an integer" has no 32-bit limit
+		{0x15A5A5A5A5, 37}, {0x1FFFFFFFFF, 33}, {-0x123456789ABCDF1, 64}} {
 		a := a
 		add(fmt.Sprintf("AddBits(%#x,%d)", a.v, a.k), 0, func(b *utils.BitList) { b.AddBits(a.v, a.k) }, func(m []bool) []bool { return mAddBits(m, a.v, int(a.k)) })
 	}
